@@ -50,7 +50,7 @@ def main():
                 'replay_cmd_template': './check --replay {path}',
                 'engine': c.get('engine', 'mc-explorer'),
                 'level_claimed': {'category': 'model_checking', 'text': c['text'], 'design_ref': 'DESIGN.md section ' + c['ref']},
-                'level_note': c['note'],
+                'level_note': c['note'] + ' Presentation dimensions (name schemes, alphabets, dict insertion orders, shared objects, per-object set orders), thin families and scale instances are listed per tier in BOUNDS.md. Layers with a stride walk an arithmetic progression (offset VERIF_SEED) through a space too large to enumerate; a run that contains one writes exhaustive=false in its evidence.',
                 'technique': c['technique'],
             })
         else:
